@@ -193,5 +193,18 @@ pub fn node_invariants(expect_empty: bool) -> (usize, std::collections::HashMap<
             }
         }
     }
+    // Hand-over envelopes: with no fallback transaction in flight every node owns exactly one
+    // envelope, and the envelopes owned are a permutation of the ones embedded in the nodes (a
+    // successful help swaps the writer's and the reader's, nothing else moves them).
+    let embedded: std::collections::HashSet<usize> = nodes.iter().map(|n| n.own_envelope).collect();
+    let mut owned = std::collections::HashMap::new();
+    for n in &nodes {
+        if !embedded.contains(&n.space_offer) {
+            problems.push(format!("node {:#x}: its hand-over envelope {:#x} is not an envelope of any node", n.addr, n.space_offer));
+        }
+        if let Some(other) = owned.insert(n.space_offer, n.addr) {
+            problems.push(format!("nodes {:#x} and {:#x} both own the hand-over envelope {:#x} at a quiescent point", other, n.addr, n.space_offer));
+        }
+    }
     (nodes.len(), occ, problems)
 }
